@@ -15,7 +15,7 @@ def recv_job(core, name, prop_define, L, memory_checks, timeout=900, ndebug=True
         name=name, harness="rtr_recv.c", entry="harness",
         defines=["STREAM_LEN=%d" % L, "SENT_MAX=%d" % max(96, L + 72)] + ([prop_define] if prop_define else []),
         unwind=max(L, 96) + 80, timeout=timeout, mem_gb=12, sources=PKT_SOURCES, object_bits=10,
-        memory_checks=memory_checks, ndebug=ndebug,
+        memory_checks=memory_checks, ndebug=ndebug, flags_meta=["unwind-is-violation"],
         desc="real rtr_receive_pdu on an arbitrary %d-byte stream, unscaled 3248-byte buffer; version, first-PDU "
              "flag, socket state, transport faults at every call symbolic%s" % (L, "; all CBMC memory-safety checks on" if memory_checks else ""),
         bounds={"stream_bytes": L, "pdus": 1, "RTR_MAX_PDU_LEN": 3248}, stubs=PKT_STUBS)
